@@ -3,7 +3,7 @@
 Uses the scenario driver, the model case encoder and the hit classifier of checks/c16.py (same model area
 `diskcrash`); a C17 scenario has no crash point: the workload runs to its end, squid is stopped with SIGTERM
 (shutdown_lifetime 0), restarted, and every URL is fetched with only-if-cached."""
-import random
+import os, random
 from vlib import std
 from checks import c16
 
@@ -105,12 +105,14 @@ def run(res, tier):
     res.rule = ("random histories of 2-6 operations (GET miss, reload of a cached URL with a new version of another size, "
                 "PURGE) over 1-4 URLs with body sizes from 300 bytes to 70 KB (1-5 rock slots) on a 16 MB rock cache_dir "
                 "(ample space), SIGTERM, restart, every URL fetched with only-if-cached; plus about one history in five on a "
-                "ufs or aufs cache_dir judged by the oracle only; non-trivial = the run completed")
+                "ufs or aufs cache_dir judged by the oracle only; thorough = 160 generated histories (each costs a squid -z, two "
+                "starts and a shutdown, about 4 s); non-trivial = the run completed")
+    os.environ.setdefault("VERIF_STALL", "180")      # one model case takes 0.3-3 s; never mistake load for a hang
     try:
         std.run_lab(res, PID, tier, area="diskcrash", gens=["diskcrash"], gen_scenarios=gen_scenarios,
                     run_impl=c16.run_impl, to_case=c16.to_case, oracle=oracle,
                     corr_name="DiskcrashModel (writes, rebuild, hit) vs the running squid",
-                    n_quick=14, n_thorough=500, seed_salt=17, model_blind=c16.model_blind,
+                    n_quick=14, n_thorough=160, seed_salt=17, model_blind=c16.model_blind,
                     kind_fn=kind_fn, nontrivial_fn=lambda s, o: " | " in o, retries=1)
     finally:
         c16._state.clear()
